@@ -249,10 +249,11 @@ PROPS = {
         rule="payloads from a JSON-value generator (nil, bools, large ints, floats incl. NaN/Inf, strings built from control / HTML / multi-byte / U+2028/9 / invalid UTF-8 pieces, nested slices and maps to depth 3; unencodable values of seven kinds: channels, functions, failing MarshalJSON / MarshalText (value and map key), invalid RawMessage, invalid json.Number; zero and zoned creation times) x event types with special characters x JSONFormatter / JSONFormatterFilter with predicate absent/keep/drop/error, eventlogger.Filter; the stored bytes are compared byte for byte with the model's rendering; non-trivial = a container or multi-token payload, distinct by op line",
     ),
     "C18": dict(
-        module="Evl.Props.C18",
-        theorems=["Evl.C18.reject", "Evl.C18.process_valid", "Evl.C18.sign_failure", "Evl.C18.signed", "Evl.C18.unlisted_not_signed"],
+        module="Evl.Props.C18Verify",
+        theorems=["Evl.C18.reject", "Evl.C18.process_valid", "Evl.C18.sign_failure", "Evl.C18.signed", "Evl.C18.unlisted_not_signed",
+                  "Evl.CloudEvents.b64dec_b64", "Evl.CloudEvents.doc_render", "Evl.C18.signed_verifies"],
         runs=[dict(model="ce", sub="ce", driver="ce", quick=["-n", "5000"], thorough=["-n", "200000"], search=["-n", "50000"])],
-        oracle_prefixes=["C18"], models=["M8b CloudEvents", "M8 Json"],
+        oracle_prefixes=["C18"], models=["M8b CloudEvents", "M8 Json", "M8r JsonParse", "M8v CloudEventsVerify"],
         trusted_base=TB_COMMON,
         assumptions=["encoding/json struct field order / omitempty and json.Indent as modelled (compared byte for byte); time.Time RFC 3339 token and url.URL.String() passed verbatim",
                      "base62.Random gives fresh ids (the harness checks collisions within a run only)",
